@@ -320,6 +320,22 @@ def _r3(model, res):
                 res.violation('R3', 'function:CHOOSE:unaddressed-error', m2.where(f2),
                               'CHOOSE(%d, ...) with an error value among the alternatives that are not addressed must give %s; got %s %r: only the '
                               'addressed value is selected (IF-like use: CHOOSE(k, "n/a", A/B))' % (i, want, o.kind, o.value), case={'index': i}, func=f2.name)
+    # the last positions of a long list: with n values every i up to n is addressed (the documented limit of 254 values included)
+    for nvals, i in ((254, 254), (254, 253), (100, 100), (254, 1)):
+        try:
+            outs = _runs(model, 'CHOOSE', lambda nvals=nvals, i=i: [Const(i)] + [Sym('str', 'v%d' % j) for j in range(1, nvals + 1)])
+        except Unmodelled as e:
+            res.ob('R3', 'CHOOSE', {'index': i, 'values': nvals}, True, 'undecided: %s' % e)
+            continue
+        outs = [o for o in outs if not o.imprecise]
+        if not outs:
+            continue
+        ok = all(o.kind == 'return' and isinstance(o.value, Sym) and o.value.name == 'v%d' % i for o in outs)
+        res.ob('R3', 'CHOOSE', {'index': i, 'values': nvals}, ok, H.describe(outs)[:2])
+        if not ok:
+            res.violation('R3', 'function:CHOOSE:last-position', m2.where(f2),
+                          'CHOOSE(%d, v1 ... v%d) must give v%d (1 <= i <= n addresses vi); got %s' % (i, nvals, i, '; '.join(H.describe(outs)[:2])),
+                          case={'index': i, 'values': nvals}, func=f2.name)
     # a fractional index: an error, or the truncated position - never the rounded one (i = 0.6 is < 1 and must not select v1)
     try:
         outs = _runs(model, 'CHOOSE', lambda: [Sym('float', 'i'), Sym('str', 'v1'), Sym('str', 'v2'), Sym('str', 'v3')])
